@@ -197,7 +197,7 @@ def run(prop, tier=None, replay=None):
         elif tier != "quick" or i % 3 == 0:
             jobs.append(dict(src_free=free, name="fixed", src=fixed_render(stmts, 72, "&" if i % 2 else "1", "C", i), free=False, analyze=bool((i // 2) % 2)))
         if tier != "quick":
-            jobs.append(dict(name="free2", src=free, free=True, analyze=not bool(i % 2)))
+            jobs.append(dict(name="free2", src=free, free=True, analyze=not bool(i % 2), need2=(p["fam"] == "stress")))
         cases.append({"id": i, "jobs": jobs, "prog": p})
     res = pmap(observe, [{"id": c["id"], "jobs": c["jobs"]} for c in cases], timeout=120, batch=16)
     chk.phase("observe")
